@@ -59,6 +59,8 @@ raise returns the outcome together with the object state reached so far):
                with Python's evaluation order and short-circuit;  `a if c else b` likewise
   super().reset() (reset only) Pattern.reset: every Pattern-holding attribute (model type arg), in the order in which
                                __init__ creates the attributes: obind (reset_field rp f) (fun f' => ..)
+                               (reset_field: a pattern, the items of a list, the values of a dict, and - since the repair
+                               C04-reset-tuples - the patterns inside tuples wherever Pattern.value resolves them)
   self.reset() (last statement of __init__ only)      the translated reset on the fields assigned so far
   Pattern.pattern(x) (__init__ only)                  patternify x
 
